@@ -208,6 +208,13 @@ func (g *Gen) assignKeys(con *Contract, fn *ssa.Function, li *loopInfo) bool {
 			}
 			return false
 		case *SSel:
+			if id, ok := e.X.(*SIdent); ok && g.staticTypeOf(id, fn) == nil {
+				if k, _ := g.typeFieldKey(e, con.Pkg, nil); k != "" {
+					li.heapKey[k] = true
+					li.keyUnknown[k] = true
+					continue
+				}
+			}
 			// need static type of e.X: resolve through parameter names
 			t := g.staticTypeOf(e.X, fn)
 			if t == nil {
@@ -719,6 +726,13 @@ func (fr *Frame) havocLoc(st *State, pre *State, e SExpr, env *callEnv, pkg stri
 		}
 		fail("assigns: cannot havoc %s", x.Name)
 	case *SSel:
+		if k, _ := g.typeFieldKey(x, pkg, env.isName); k != "" {
+			// T.f: field f of every (existing) object of type T may change
+			nv := g.declare("hk", g.heapSorts[k])
+			st.heap.set(k, nv)
+			g.heapRefBound(nv, k, st.heap.get(g, g.topKey()))
+			return
+		}
 		base := fr.evalSpec(x.X, ctx)
 		a, ft := fr.fieldAddr(base, x.Name)
 		nv := g.havocVal("hv", ft)
@@ -1364,6 +1378,9 @@ func (fr *Frame) runDefers(st *State) {
 // layered (old objects keep their contents, newer ones are unconstrained). Otherwise only the watermark moves.
 func (fr *Frame) afterCallAlloc(st, pre *State, con *Contract, resT types.Type, env *callEnv) {
 	g := fr.g
+	if con.NoAlloc {
+		return // nothing new becomes reachable: the watermark stays, so results are objects that existed before the call
+	}
 	need := typeHasRef(resT, 0, false)
 	for _, en := range con.Ensures {
 		if strings.Contains(en.Text, "fresh(") {
@@ -1414,6 +1431,9 @@ func (fr *Frame) assignLocType(pre *State, e SExpr, env *callEnv, pkg string) (t
 		}
 		return sv.T
 	case *SSel:
+		if k, ft := g.typeFieldKey(x, pkg, env.isName); k != "" {
+			return ft
+		}
 		base := fr.evalSpec(x.X, ctx)
 		_, ft := fr.fieldAddr(base, x.Name)
 		return ft
